@@ -5,6 +5,7 @@ import (
 	"go/constant"
 	"go/types"
 	"math"
+	"reflect"
 	"strconv"
 	"strings"
 
@@ -479,7 +480,11 @@ func init() {
 			c.ret(Tuple{smt.BV(64, uint64(sl.Len)), Iface{}})
 		},
 		"encoding/json.Unmarshal": func(c *stubCtx) {
-			c.m.Res.Assumptions["encoding/json.Unmarshal stubbed: succeeds and leaves the target at its current value"] = true
+			if c.m.jsonFlatObject(c) {
+				c.m.Res.Assumptions["encoding/json.Unmarshal of a flat object of string members ({\"k\":\"v\",...}, structure concrete, values possibly symbolic and assumed free of quotes and backslashes) into a struct: string fields set by json tag / field name; everything else: succeeds and leaves the target at its current value"] = true
+			} else {
+				c.m.Res.Assumptions["encoding/json.Unmarshal stubbed: succeeds and leaves the target at its current value"] = true
+			}
 			c.ret(Iface{})
 		},
 		"encoding/json.Marshal": func(c *stubCtx) {
@@ -846,4 +851,108 @@ func wsConnOf(v Value) *wsConn {
 		return nil
 	}
 	return o.X.(*wsConn)
+}
+
+// jsonFlatObject is the one piece of encoding/json.Unmarshal the executor interprets: data of the form
+// {"k1":"v1","k2":"v2"} (structural bytes concrete; value bytes may be symbolic) into a pointer to a struct whose string
+// fields are matched by json tag or field name. Reports whether it applied.
+func (m *Machine) jsonFlatObject(c *stubCtx) bool {
+	tgt, ok := c.args[1].(Iface)
+	if !ok || tgt.T == nil {
+		return false
+	}
+	pt, ok := tgt.T.Underlying().(*types.Pointer)
+	if !ok {
+		return false
+	}
+	st, ok := pt.Elem().Underlying().(*types.Struct)
+	if !ok {
+		return false
+	}
+	p, ok := tgt.V.(Ptr)
+	if !ok || p.C == nil {
+		return false
+	}
+	sc, ok := p.C.E[p.I].(*Cells)
+	if !ok {
+		return false
+	}
+	sl, ok := c.args[0].(Slice)
+	if !ok || sl.Nil {
+		return false
+	}
+	data := make([]*smt.Term, sl.Len)
+	for i := range data {
+		t, isT := sl.C.E[sl.Off+i].(*smt.Term)
+		if !isT {
+			return false
+		}
+		data[i] = t
+	}
+	is := func(i int, b byte) bool { return i < len(data) && data[i].IsConst() && byte(data[i].SInt()) == b }
+	type member struct {
+		key string
+		val []*smt.Term
+	}
+	var members []member
+	i := 0
+	if !is(i, '{') {
+		return false
+	}
+	i++
+	for !is(i, '}') {
+		if len(members) > 0 {
+			if !is(i, ',') {
+				return false
+			}
+			i++
+		}
+		if !is(i, '"') {
+			return false
+		}
+		i++
+		var key []byte
+		for i < len(data) && !is(i, '"') {
+			if !data[i].IsConst() {
+				return false
+			}
+			key = append(key, byte(data[i].SInt()))
+			i++
+		}
+		if !is(i, '"') || !is(i+1, ':') || !is(i+2, '"') {
+			return false
+		}
+		i += 3
+		var val []*smt.Term
+		for i < len(data) && !is(i, '"') {
+			val = append(val, data[i])
+			i++
+		}
+		if !is(i, '"') {
+			return false
+		}
+		i++
+		members = append(members, member{string(key), val})
+	}
+	if i != len(data)-1 {
+		return false
+	}
+	for _, mb := range members {
+		for f := 0; f < st.NumFields(); f++ {
+			fld := st.Field(f)
+			name := fld.Name()
+			if tag := reflect.StructTag(st.Tag(f)).Get("json"); tag != "" {
+				if k := strings.Index(tag, ","); k >= 0 {
+					tag = tag[:k]
+				}
+				if tag != "" {
+					name = tag
+				}
+			}
+			if name == mb.key && isString(fld.Type()) {
+				m.storeCell(sc, f, Str{append([]*smt.Term(nil), mb.val...)})
+			}
+		}
+	}
+	return true
 }
